@@ -152,7 +152,7 @@ type PostRec struct {
 	Cls   string   `json:"cls"`
 	Code  int      `json:"code"`
 	Body  string   `json:"body"`
-	Content int    `json:"content"` // what distinguishes the correct response of this exchange from the others of the run
+	Content int    `json:"content"` // identity of the exchange: what distinguishes its response from every other of the process history
 	Asked int      `json:"asked"` // instant before which the response asked not to retry (-1: nothing asked)
 	Rav   int      `json:"rav"`   // as written to the trace: seconds, or the date as absolute ms
 	Rak   string   `json:"rak"`
@@ -176,6 +176,8 @@ type CallRec struct {
 	SCTOK  bool      `json:"sctok"`
 	RetMult int      `json:"retmult"` // shared state when the submission returned
 	RetNB   int      `json:"retnb"`
+	No      int      `json:"no"`    // which submission of this caller in the process history
+	RetID   int      `json:"retid"` // the exchange whose response the returned result IS (0: the context's error; -1: none)
 }
 
 // Snap is the shared back-off state read when every goroutine of the bubble was blocked.
@@ -195,6 +197,8 @@ type Run struct {
 	// infinite tail is 503, which is paced by at least the 1 s back-off): the scripted server ended the submission
 	// with a non-retryable status so that a retry loop that never waits cannot exhaust time and memory.
 	Runaway string `json:"runaway"`
+	// Changed: results of the process history that no longer are what was returned (see retain_test.go)
+	Changed []Change `json:"changed"`
 }
 
 const maxPostsPerCall = 3000
@@ -208,6 +212,7 @@ type callState struct {
 	rec    *CallRec
 	// the redirect chain in progress: statuses still to come, the answer at its far end to a POST / to another
 	// method, a chain that never ends
+	xid       int // identity of the scripted exchange in progress
 	chain     []int
 	chainBody bool
 	finalPost string
@@ -299,7 +304,7 @@ func (cs *callState) hop(req *http.Request, code int, hdr http.Header) (*http.Re
 	if !cs.chainBody {
 		return mkResp(req, code, hdr, nil), ""
 	}
-	body := fmt.Sprintf("<a href=\"/redirected\">%d for caller %d request %d</a>", code, cs.caller, cs.next)
+	body := fmt.Sprintf("<a href=\"/redirected\">%d for caller %d request %d exchange %d</a>%s", code, cs.caller, cs.next, cs.xid, filler(cs.xid))
 	return mkResp(req, code, hdr, strings.NewReader(body)), body
 }
 
@@ -363,7 +368,8 @@ func (w *world) RoundTrip(req *http.Request) (*http.Response, error) {
 	}
 	w.mu.Lock()
 	t := w.ms()
-	pr := PostRec{T: t, Spec: sp, Cls: seenClass(w.hc, sp), Code: code, Asked: -1, Rak: "none", Content: 1000*cs.caller + cs.next}
+	cs.xid = proc.nextID()
+	pr := PostRec{T: t, Spec: sp, Cls: seenClass(w.hc, sp), Code: code, Asked: -1, Rak: "none", Content: cs.xid}
 	cs.chain, cs.loop = nil, 0
 	pr.PreMult, pr.PreNB = w.state()
 	hdr := http.Header{}
@@ -436,13 +442,15 @@ func (w *world) RoundTrip(req *http.Request) (*http.Response, error) {
 			err = errors.New("scripted: connection refused")
 		}
 	default: // s408 s429 s503 other
-		body = fmt.Sprintf("status %d for caller %d request %d", code, cs.caller, cs.next)
+		// distinguishable from the body of every other exchange of the process, also by its length
+		body = fmt.Sprintf("exchange %d: status %d for caller %d request %d%s", cs.xid, code, cs.caller, cs.next, filler(cs.xid))
 		resp = mkResp(req, code, hdr, bytes.NewReader([]byte(body)))
 	}
 	pr.Body = body
 	cs.rec.Posts = append(cs.rec.Posts, pr)
+	proc.sentExchange(pr)
 	wk, wsp := sp.wire()
-	w.emit(map[string]any{"ev": "Post", "c": cs.caller, "t": t, "cls": pr.Cls, "w": wk, "sp": wsp, "rak": pr.Rak, "rav": pr.Rav, "code": pr.Code})
+	w.emit(map[string]any{"ev": "Post", "c": cs.caller, "t": t, "id": cs.xid, "cls": pr.Cls, "w": wk, "sp": wsp, "rak": pr.Rak, "rav": pr.Rav, "code": pr.Code})
 	w.mu.Unlock()
 	w.poke()
 	return resp, err
@@ -567,6 +575,8 @@ func RunScenario(t *testing.T, sc Scenario) *Run {
 			}(ci+1, calls)
 		}
 		wg.Wait()
+		// the end of the client's life: every result of the process history is looked at again
+		w.inspect(0)
 		close(w.act)
 		<-monDone
 	})
@@ -598,11 +608,14 @@ func (w *world) oneCall(lc *client.LogClient, caller int, cspec CallSpec) {
 	}
 	w.mu.Lock()
 	rec.T0 = w.ms()
+	rec.No = proc.nextCall(caller)
 	w.run.Calls = append(w.run.Calls, rec)
-	w.emit(map[string]any{"ev": "Call", "c": caller, "t": rec.T0, "ctxat": ctxat})
+	w.emit(map[string]any{"ev": "Call", "c": caller, "no": rec.No, "t": rec.T0, "ctxat": ctxat})
 	w.mu.Unlock()
 	var err error
 	var sct *ct.SignedCertificateTimestamp
+	// what the caller is handed and keeps, as it is handed it (no copies)
+	kp := &kept{c: caller, no: rec.No, api: cspec.API, hc: w.hc}
 	generic := false
 	func() {
 		defer func() {
@@ -621,6 +634,7 @@ func (w *world) oneCall(lc *client.LogClient, caller int, cspec CallSpec) {
 			var hr *http.Response
 			var body []byte
 			hr, body, err = lc.PostAndParseWithRetry(ctx, fmt.Sprintf("/caller/%d", caller), map[string]int{"x": caller}, &rsp)
+			kp.hr, kp.body, kp.rsp = hr, body, &rsp
 			if err == nil {
 				// the content of the response the submission succeeded with: the last exchange of the script
 				w.mu.Lock()
@@ -661,11 +675,16 @@ func (w *world) oneCall(lc *client.LogClient, caller int, cspec CallSpec) {
 	if ctx.Err() != nil {
 		rec.CtxErrAtRet = ctx.Err().Error()
 	}
+	kp.err, kp.sct, kp.k, kp.ctxErr = err, sct, rec.Res, ctx.Err()
 	w.mu.Lock()
 	rec.TRet = w.ms()
 	rec.RetMult, rec.RetNB = w.state()
-	w.emit(map[string]any{"ev": "Return", "c": caller, "t": rec.TRet, "res": rec.Res})
+	// the result is identified against everything the server has sent in the process and kept from here on
+	rec.RetID = proc.keep(kp, rec)
+	w.emit(map[string]any{"ev": "Return", "c": caller, "t": rec.TRet, "res": rec.Res, "id": rec.RetID})
 	w.mu.Unlock()
+	// after every return, every result of the process history is looked at again
+	w.inspect(caller)
 	cancel()
 	w.poke()
 }
